@@ -47,7 +47,7 @@ def constants(kind, tier, derive=False):
         elif kind == "lfuda":
             c.update(MaxCnt="4", MaxRange="2")
         elif kind in ("tlru", "utlru"):
-            c.update(Vals="{1,2}", MaxRange="2")
+            c.update(Vals="{1,2}", MaxRange="2", Caps="{1,2,3}", TtlArgs="{0,1,2,3}")
         elif kind in ("utmap", "utset"):
             c.update(Keys="{1,2,3,4}")
     if derive:
@@ -67,9 +67,9 @@ def write_cfg(path, kind, consts, emit):
         f.write("ACTION_CONSTRAINT EmitEdge\nCHECK_DEADLOCK FALSE\n")
 
 
-def run_tlc(cfgp, md, workers, timeout, outp=None):
+def run_tlc(cfgp, md, workers, timeout, outp=None, extra=None):
     cmd = ["java", "-Xmx8g", "-XX:+UseParallelGC", "-cp", JAVA_CP, "tlc2.TLC", "-workers", str(workers), "-metadir", md,
-           "-config", cfgp, os.path.join(SPEC, "MCCap.tla")]
+           "-config", cfgp] + (extra or []) + [os.path.join(SPEC, "MCCap.tla")]
     t0 = time.time()
     try:
         if outp:
@@ -125,6 +125,37 @@ def run_for(prop, tier, wd):
             log("mc %s: timeout (%ss), counts are of the part explored" % (kind, timeout))
         elif not run["complete"]:
             res["infra"] = "TLC failed on MCCap (%s):\n%s" % (kind, text[-2500:])
+    # thorough: random walks of the same model with constants far beyond what BFS can finish
+    if tier == "thorough" and not res.get("infra"):
+        big = dict(Keys="{1,2,3,4,5}", Vals="{1,2}", Caps="{1,2,3,4}", TtlArgs="{0,1,2,3,5}", TickSteps="{1,2,3}",
+                   MaxRange="2", MaxCnt="6")
+        seed = os.environ.get("VERIF_SEED", "1")
+
+        def sim(kind):
+            c = dict(big)
+            if kind not in ("tlru", "utlru", "utmap", "utset"):
+                c["TtlArgs"] = "{0}"
+            cfgp = os.path.join(wd, "mc", "%s_sim.cfg" % kind)
+            with open(cfgp, "w") as f:
+                f.write("SPECIFICATION MSpec\nCONSTANTS\n  Strict = {}\n  MCKind = \"%s\"\n" % kind)
+                for k, v in c.items():
+                    f.write("  %s = %s\n" % (k, v))
+                f.write("  Emit = FALSE\nCONSTRAINT CntBound\nINVARIANTS %s\nPROPERTIES %s\nCHECK_DEADLOCK FALSE\n" %
+                        (INVARIANTS, PROPERTIES))
+            rc, text, wall = run_tlc(cfgp, os.path.join(wd, "mc", kind + "_sim.md"), 4, 900,
+                                     extra=["-simulate", "num=4000", "-depth", "60", "-seed", seed])
+            return kind, c, rc, text, wall
+
+        with ThreadPoolExecutor(max_workers=3) as ex:
+            for kind, c, rc, text, wall in ex.map(sim, kinds):
+                m = re.search(r"The number of states generated: (\d+)", text)
+                run = dict(kind=kind, mode="simulate num=4000x4 depth=60", constants=c, wall_s=round(wall, 1), rc=rc,
+                           states_checked=int(m.group(1)) if m else 0)
+                res["runs"].append(run)
+                if "is violated" in text:
+                    res["infra"] = "TLC simulation found a violation in the operational model (%s):\n%s" % (kind, text[-2500:])
+                elif not m:
+                    res["infra"] = "TLC simulation failed (%s):\n%s" % (kind, text[-1500:])
     if res["runs"]:
         res["samples"] = [dict(model_checking_run=res["runs"][0])]
     return res
